@@ -1,4 +1,6 @@
 import LinfaSpec.Proofs.NN
+import LinfaSpec.Proofs.NNMetrics
+import Mathlib.Analysis.SpecialFunctions.Log.Basic
 import Mathlib.Algebra.Order.Field.Rat
 import Mathlib.Algebra.Order.Group.Abs
 import Mathlib.Algebra.Order.Ring.Abs
@@ -341,5 +343,337 @@ theorem query_errors {P α : Type} [LT α] [DecidableLT α] [LE α] [DecidableLE
     ballKnnQ m ix qdim q k = .error .wrongDimension ∧
     ballRangeQ m ix qdim q r = .error .wrongDimension := by
   simp [linearKnnQ, linearRangeQ, kdKnnQ, kdRangeQ, ballKnnQ, ballRangeQ, nnHelper, hd, hix]
+
+/-! ### the whole call: `CommonNearestNeighbour` dispatch, build forms, build + query -/
+section glue
+variable {P α : Type} [Field α] [LinearOrder α] [IsStrictOrderedRing α]
+
+/-- `from_batch` is `from_batch_with_leaf_size` with leaf size `2^4 = 16` -/
+theorem from_batch_default (m : Metric P α) (mean : List P → P)
+    (split : List (Pt P) → Option (List (Pt P) × P × List (Pt P))) (kind : Kind) (ncols : Nat)
+    (rows : List P) :
+    fromBatch m mean split kind ncols rows = fromBatchWithLeafSize m mean split kind 16 ncols rows ∧
+    buildForm m mean split kind .default ncols rows =
+      buildForm m mean split kind (.leaf 16) ncols rows := ⟨rfl, rfl⟩
+
+/-- both build forms go through `from_batch_with_leaf_size` with the form's leaf size -/
+theorem buildForm_eq (m : Metric P α) (mean : List P → P)
+    (split : List (Pt P) → Option (List (Pt P) × P × List (Pt P))) (kind : Kind) (form : Form)
+    (ncols : Nat) (rows : List P) :
+    buildForm m mean split kind form ncols rows =
+      fromBatchWithLeafSize m mean split kind (form.leafSize) ncols rows := by
+  cases form <;> rfl
+
+/-- **the statement's k-nearest clause for the whole call**: for every kind of
+`CommonNearestNeighbour`, both build forms, every batch, leaf size ≥ 1, dimension ≥ 1, query of the
+right dimension and every `k ≥ 0`: build + `k_nearest` succeeds and returns `KNearest`. -/
+theorem common_knn_correct {m : Metric P α} (h : Lawful m) (mean : List P → P)
+    (split : List (Pt P) → Option (List (Pt P) × P × List (Pt P))) (hs : SplitPerm split)
+    (kind : Kind) (form : Form) (ncols : Nat) (hl : 0 < form.leafSize) (hc : 0 < ncols)
+    (rows : List P) (q : P) (k : Nat) :
+    ∃ out, knnRequest m mean split kind form ncols rows ncols q k = .ok out ∧
+      KNearest m q (enumerate rows) out k := by
+  have hb : buildCheck ncols (form.leafSize) = .ok () := (build_errors ncols _).mpr ⟨hl, hc⟩
+  unfold knnRequest
+  rw [buildForm_eq]
+  unfold fromBatchWithLeafSize
+  rw [hb]
+  cases kind with
+  | linear =>
+    exact ⟨linearKnn m q k (enumerate rows), by simp [Index.kNearest, linearKnnQ],
+      linear_knn_correct m q k _⟩
+  | kd =>
+    exact ⟨linearKnn m q k (enumerate rows), by simp [Index.kNearest, kdKnnQ],
+      linear_knn_correct m q k _⟩
+  | ball =>
+    obtain ⟨out, ho, hk⟩ := search_knn_correct h mean split hs (form.leafSize) ncols rows q k
+    exact ⟨out, by simp [Index.kNearest, ho], hk⟩
+
+/-- **the statement's range clause for the whole call**: every kind answers with exactly (as a
+multiset) the stored points with `rdist < dist_to_rdist r`; for `r ≥ 0` these are the points
+strictly inside the radius, and no point at distance `≥ r` (on or outside the sphere) is returned. -/
+theorem common_range_correct {m : Metric P α} (h : Lawful m) (mean : List P → P)
+    (split : List (Pt P) → Option (List (Pt P) × P × List (Pt P))) (hs : SplitPerm split)
+    (kind : Kind) (form : Form) (ncols : Nat) (hl : 0 < form.leafSize) (hc : 0 < ncols)
+    (rows : List P) (q : P) (r : α) :
+    ∃ out, rangeRequest m mean split kind form ncols rows ncols q r = .ok out ∧
+      out.Perm (linearRange m q r (enumerate rows)) ∧
+      (0 ≤ r → ∀ p, p ∈ out ↔ p ∈ enumerate rows ∧ m.dist q p.1 < r) := by
+  have hb : buildCheck ncols (form.leafSize) = .ok () := (build_errors ncols _).mpr ⟨hl, hc⟩
+  have key : ∀ out : List (Pt P), out.Perm (linearRange m q r (enumerate rows)) →
+      (0 ≤ r → ∀ p, p ∈ out ↔ p ∈ enumerate rows ∧ m.dist q p.1 < r) := by
+    intro out hp hr p
+    rw [hp.mem_iff, linear_range_correct, range_iff_dist h q p.1 hr]
+  obtain ⟨ob, okd, hob, hokd, hpb, hpk, _⟩ :=
+    indices_agree_range h mean split hs (form.leafSize) ncols rows q r
+  unfold rangeRequest
+  rw [buildForm_eq]
+  unfold fromBatchWithLeafSize
+  rw [hb]
+  cases kind with
+  | linear =>
+    exact ⟨linearRange m q r (enumerate rows), by simp [Index.withinRange, linearRangeQ],
+      List.Perm.refl _, key _ (List.Perm.refl _)⟩
+  | kd => exact ⟨okd, by simp [Index.withinRange, hokd], hpk, key _ hpk⟩
+  | ball => exact ⟨ob, by simp [Index.withinRange, hob], hpb, key _ hpb⟩
+
+/-- **the kinds are interchangeable**: any two kinds (built in any form) return the same distance
+sequence for a k-nearest query and permutations of one another for a range query. -/
+theorem common_agree {m : Metric P α} (h : Lawful m) (mean : List P → P)
+    (split : List (Pt P) → Option (List (Pt P) × P × List (Pt P))) (hs : SplitPerm split)
+    (k1 k2 : Kind) (f1 f2 : Form) (ncols : Nat) (hl1 : 0 < f1.leafSize) (hl2 : 0 < f2.leafSize)
+    (hc : 0 < ncols) (rows : List P) (q : P) (k : Nat) (r : α) :
+    (∃ o1 o2, knnRequest m mean split k1 f1 ncols rows ncols q k = .ok o1 ∧
+      knnRequest m mean split k2 f2 ncols rows ncols q k = .ok o2 ∧
+      o1.map (fun p => m.rdist q p.1) = o2.map (fun p => m.rdist q p.1)) ∧
+    (∃ o1 o2, rangeRequest m mean split k1 f1 ncols rows ncols q r = .ok o1 ∧
+      rangeRequest m mean split k2 f2 ncols rows ncols q r = .ok o2 ∧ o1.Perm o2) := by
+  obtain ⟨a1, ha1, hk1⟩ := common_knn_correct h mean split hs k1 f1 ncols hl1 hc rows q k
+  obtain ⟨a2, ha2, hk2⟩ := common_knn_correct h mean split hs k2 f2 ncols hl2 hc rows q k
+  obtain ⟨b1, hb1, hp1, _⟩ := common_range_correct h mean split hs k1 f1 ncols hl1 hc rows q r
+  obtain ⟨b2, hb2, hp2, _⟩ := common_range_correct h mean split hs k2 f2 ncols hl2 hc rows q r
+  exact ⟨⟨a1, a2, ha1, ha2, kNearest_dists_unique m q _ _ _ k hk1 hk2⟩,
+    ⟨b1, b2, hb1, hb2, hp1.trans hp2.symm⟩⟩
+
+end glue
+
+section malformed
+variable {P α : Type} [LT α] [DecidableLT α] [LE α] [DecidableLE α] [OfNat α 0] [Sub α]
+
+/-- **malformed builds or queries are errors, never answers** — for every kind and both query
+forms, also when several defects coincide (zero leaf size, zero dimension, wrong query dimension). -/
+theorem common_malformed (m : Metric P α) (mean : List P → P)
+    (split : List (Pt P) → Option (List (Pt P) × P × List (Pt P))) (kind : Kind) (form : Form)
+    (ncols qdim : Nat) (hbad : form.leafSize = 0 ∨ ncols = 0 ∨ ncols ≠ qdim)
+    (rows : List P) (q : P) (k : Nat) (r : α) :
+    (∀ out, knnRequest m mean split kind form ncols rows qdim q k ≠ .ok out) ∧
+    (∀ out, rangeRequest m mean split kind form ncols rows qdim q r ≠ .ok out) := by
+  have hform : buildForm m mean split kind form ncols rows =
+      fromBatchWithLeafSize m mean split kind (form.leafSize) ncols rows := by cases form <;> rfl
+  unfold knnRequest rangeRequest
+  rw [hform]
+  unfold fromBatchWithLeafSize buildCheck
+  by_cases h1 : form.leafSize = 0
+  · simp [h1]
+  · by_cases h2 : ncols = 0
+    · simp [h1, h2]
+    · have h3 : ncols ≠ qdim := by
+        rcases hbad with hb | hb | hb
+        · exact absurd hb h1
+        · exact absurd hb h2
+        · exact hb
+      cases kind <;>
+        simp [h1, h2, h3, Index.kNearest, Index.withinRange, linearKnnQ, linearRangeQ, kdKnnQ,
+          kdRangeQ, ballKnnQ, ballRangeQ, nnHelper, ballIndex]
+
+end malformed
+
+
+/-! ### shape of an answer: positions, canonical part, ascending distance -/
+section shape
+variable {P α : Type} [Field α] [LinearOrder α] [IsStrictOrderedRing α]
+
+/-- **coordinates and row position**: every returned pair is a row of the batch at its own
+position, and no row is returned twice. -/
+theorem kNearest_positions (m : Metric P α) (q : P) (rows : List P) (out : List (Pt P)) (k : Nat)
+    (h : KNearest m q (enumerate rows) out k) :
+    (∀ p ∈ out, rows[p.2]? = some p.1) ∧ (out.map (·.2)).Nodup := by
+  obtain ⟨rest, hp, _, _, _⟩ := h
+  constructor
+  · intro p hpo
+    have : p ∈ enumerate rows := hp.subset (List.mem_append_left _ hpo)
+    unfold enumerate at this
+    obtain ⟨x, i⟩ := p
+    exact (List.mem_zipIdx_iff_getElem?.mp this)
+  · have h1 : ((out ++ rest).map (·.2)).Perm ((enumerate rows).map (·.2)) := hp.map _
+    have h2 : ((enumerate rows).map (·.2)).Nodup := by
+      unfold enumerate
+      rw [List.zipIdx_map_snd]
+      exact List.nodup_range'
+    have h3 := (h1.nodup_iff).mpr h2
+    rw [List.map_append] at h3
+    exact (List.nodup_append.mp h3).1
+
+/-- the same for a range answer -/
+theorem range_positions (m : Metric P α) (q : P) (r : α) (rows : List P) (out : List (Pt P))
+    (h : out.Perm (linearRange m q r (enumerate rows))) :
+    (∀ p ∈ out, rows[p.2]? = some p.1) ∧ (out.map (·.2)).Nodup := by
+  constructor
+  · intro p hpo
+    have : p ∈ enumerate rows := ((linear_range_correct m q r _ p).mp (h.subset hpo)).1
+    unfold enumerate at this
+    obtain ⟨x, i⟩ := p
+    exact (List.mem_zipIdx_iff_getElem?.mp this)
+  · have h2 : ((enumerate rows).map (·.2)).Nodup := by
+      unfold enumerate
+      rw [List.zipIdx_map_snd]
+      exact List.nodup_range'
+    have hsub : (linearRange m q r (enumerate rows)).Sublist (enumerate rows) := by
+      unfold linearRange; exact List.filter_sublist
+    exact ((h.map (·.2)).nodup_iff).mpr ((hsub.map (·.2)).nodup h2)
+
+/-- **what the correspondence compares of a k-nearest answer is canonical**: every stored point
+strictly nearer than some returned point is itself returned (so the set of positions below the
+k-th distance is the same for every tie-breaking). -/
+theorem kNearest_strict_determined (m : Metric P α) (q : P) (pts out : List (Pt P)) (k : Nat)
+    (h : KNearest m q pts out k) (x : Pt P) (hx : x ∈ pts) (y : Pt P) (hy : y ∈ out)
+    (hlt : m.rdist q x.1 < m.rdist q y.1) : x ∈ out := by
+  obtain ⟨rest, hp, _, _, hm⟩ := h
+  rcases List.mem_append.mp (hp.symm.subset hx) with h1 | h1
+  · exact h1
+  · exact absurd (hm y hy x h1) (not_le.mpr hlt)
+
+/-- **ascending distance** (not only ascending reduced distance) -/
+theorem kNearest_dist_ascending {m : Metric P α} (hL : Lawful m) (q : P) (pts out : List (Pt P))
+    (k : Nat) (h : KNearest m q pts out k) :
+    out.Pairwise (fun a b => m.dist q a.1 ≤ m.dist q b.1) := by
+  obtain ⟨_, _, _, ha, _⟩ := h
+  refine ha.imp ?_
+  intro a b hab
+  rw [hL.rdist_eq, hL.rdist_eq] at hab
+  exact hL.le_of_toR_le (hL.dist_nonneg _ _) hab
+
+end shape
+
+/-! ### the provided metrics are lawful (so the theorems apply to them, not to an abstraction) -/
+section lawful
+variable {α : Type} [Field α] [LinearOrder α] [IsStrictOrderedRing α]
+
+/-- **`L1Dist` is lawful** on the points of any fixed dimension (any ordered field): the search
+theorems apply to the very `l1` loop the driver runs. -/
+theorem mL1_lawful (d : Nat) : Lawful (onDim d (mL1 (α := α))) where
+  dist_nonneg a b := by
+    show 0 ≤ l1 a.1 b.1
+    unfold l1
+    refine foldl_add_nonneg _ ?_ 0 le_rfl
+    intro x hx
+    obtain ⟨i, _, rfl⟩ := List.getElem_of_mem hx
+    simp only [List.getElem_zipWith]
+    rw [absS_eq_abs]; exact abs_nonneg _
+  triangle a b c := by
+    show l1 a.1 c.1 ≤ l1 a.1 b.1 + l1 b.1 c.1
+    unfold l1
+    exact l1_triangle_aux a.1 b.1 c.1 (by rw [a.2, b.2]) (by rw [b.2, c.2]) 0 0 0 (by simp)
+  rdist_eq a b := rfl
+  toR_strictMono a b _ hab := hab
+  ofR_toR a _ := rfl
+
+/-- **`LInfDist` is lawful** on the points of any fixed dimension. -/
+theorem mLinf_lawful (d : Nat) : Lawful (onDim d (mLinf (α := α))) where
+  dist_nonneg a b := by
+    show 0 ≤ linf a.1 b.1
+    unfold linf
+    exact foldl_max_nonneg _ 0 le_rfl
+  triangle a b c := by
+    show linf a.1 c.1 ≤ linf a.1 b.1 + linf b.1 c.1
+    unfold linf
+    exact linf_triangle_aux a.1 b.1 c.1 (by rw [a.2, b.2]) (by rw [b.2, c.2]) 0 0 0 (by simp)
+  rdist_eq a b := rfl
+  toR_strictMono a b _ hab := hab
+  ofR_toR a _ := rfl
+
+end lawful
+
+section l2
+noncomputable local instance : Transc ℝ := ⟨Real.sqrt, Real.exp, Real.log⟩
+
+/-- **`L2Dist` is lawful** on the points of any fixed dimension: distance `√Σ(aᵢ-bᵢ)²`, reduced
+distance `Σ(aᵢ-bᵢ)²`, `dist_to_rdist = d²`, `rdist_to_dist = √` (over ℝ). -/
+theorem mL2_lawful (d : Nat) : Lawful (onDim d (mL2 (α := ℝ))) where
+  dist_nonneg a b := Real.sqrt_nonneg _
+  triangle a b c := by
+    show Real.sqrt (sqL2 a.1 c.1) ≤ Real.sqrt (sqL2 a.1 b.1) + Real.sqrt (sqL2 b.1 c.1)
+    unfold sqL2
+    exact l2_triangle_aux a.1 b.1 c.1 (by rw [a.2, b.2]) (by rw [b.2, c.2]) 0 0 0 le_rfl le_rfl
+      le_rfl (by simp)
+  rdist_eq a b := by
+    show sqL2 a.1 b.1 = Real.sqrt (sqL2 a.1 b.1) * Real.sqrt (sqL2 a.1 b.1)
+    exact (Real.mul_self_sqrt (sqL2_nonneg _ _)).symm
+  toR_strictMono a b ha hab := by
+    show a * a < b * b
+    exact mul_self_lt_mul_self ha hab
+  ofR_toR a ha := by
+    show Real.sqrt (a * a) = a
+    exact Real.sqrt_mul_self ha
+
+end l2
+
+/-! ### non-vacuity of the theorems above -/
+section examples2
+noncomputable local instance : Transc ℝ := ⟨Real.sqrt, Real.exp, Real.log⟩
+
+/-- a split in the shape of `partition` for any point type: first point left, the rest right -/
+def splitFirst {P : Type} : List (Pt P) → Option (List (Pt P) × P × List (Pt P))
+  | [] => none
+  | p :: ps => some ([p], p.1, ps)
+
+theorem splitFirst_perm {P : Type} : SplitPerm (splitFirst (P := P)) := by
+  intro pts a c b h
+  cases pts with
+  | nil => simp [splitFirst] at h
+  | cons p ps =>
+    simp only [splitFirst, Option.some.injEq, Prod.mk.injEq] at h
+    obtain ⟨rfl, _, rfl⟩ := h
+    simp
+
+-- every kind, both build forms, on the batch with duplicates and ties
+example : ∃ out, knnRequest mQ meanQ splitQ .ball .default 1 [0, 3, 1, 3, 7] 1 2 3 = .ok out ∧
+    KNearest mQ 2 (enumerate [0, 3, 1, 3, 7]) out 3 :=
+  common_knn_correct mQ_lawful meanQ splitQ splitQ_perm .ball .default 1 (by decide) (by decide) _ 2 3
+example : ∃ out, rangeRequest mQ meanQ splitQ .kd (.leaf 2) 1 [0, 3, 1, 3, 7] 1 2 1 = .ok out ∧
+    out.Perm (linearRange mQ 2 1 (enumerate [0, 3, 1, 3, 7])) ∧
+    ((0 : ℚ) ≤ 1 → ∀ p, p ∈ out ↔ p ∈ enumerate [0, 3, 1, 3, 7] ∧ mQ.dist 2 p.1 < 1) :=
+  common_range_correct mQ_lawful meanQ splitQ splitQ_perm .kd (.leaf 2) 1 (by decide) (by decide) _ 2 1
+-- two defects at once (leaf size 0 and zero columns), and a wrong query dimension alone
+example : (∀ out, knnRequest mQ meanQ splitQ .linear (.leaf 0) 0 [0, 3] 0 2 1 ≠ .ok out) ∧
+    (∀ out, rangeRequest mQ meanQ splitQ .linear (.leaf 0) 0 [0, 3] 0 2 1 ≠ .ok out) :=
+  common_malformed mQ meanQ splitQ .linear (.leaf 0) 0 0 (Or.inl rfl) _ 2 1 1
+example : (∀ out, knnRequest mQ meanQ splitQ .ball .default 1 [0, 3] 2 2 1 ≠ .ok out) ∧
+    (∀ out, rangeRequest mQ meanQ splitQ .ball .default 1 [0, 3] 2 2 1 ≠ .ok out) :=
+  common_malformed mQ meanQ splitQ .ball .default 1 2 (Or.inr (Or.inr (by decide))) _ 2 1 1
+example : (∀ p ∈ linearKnn mQ 2 3 (enumerate [0, 3, 1, 3, 7]), ([0, 3, 1, 3, 7] : List ℚ)[p.2]? = some p.1) ∧
+    ((linearKnn mQ 2 3 (enumerate [0, 3, 1, 3, 7])).map (·.2)).Nodup :=
+  kNearest_positions mQ 2 _ _ 3 (linear_knn_correct mQ 2 3 _)
+example : (linearKnn mQ 2 3 (enumerate [0, 3, 1, 3, 7])).Pairwise
+    (fun a b => mQ.dist 2 a.1 ≤ mQ.dist 2 b.1) :=
+  kNearest_dist_ascending mQ_lawful 2 _ _ 3 (linear_knn_correct mQ 2 3 _)
+
+example : (∃ o1 o2, knnRequest mQ meanQ splitQ .ball (.leaf 1) 1 [0, 3, 1, 3, 7] 1 2 3 = .ok o1 ∧
+      knnRequest mQ meanQ splitQ .linear .default 1 [0, 3, 1, 3, 7] 1 2 3 = .ok o2 ∧
+      o1.map (fun p => mQ.rdist 2 p.1) = o2.map (fun p => mQ.rdist 2 p.1)) ∧
+    (∃ o1 o2, rangeRequest mQ meanQ splitQ .ball (.leaf 1) 1 [0, 3, 1, 3, 7] 1 2 1 = .ok o1 ∧
+      rangeRequest mQ meanQ splitQ .linear .default 1 [0, 3, 1, 3, 7] 1 2 1 = .ok o2 ∧ o1.Perm o2) :=
+  common_agree mQ_lawful meanQ splitQ splitQ_perm .ball .linear (.leaf 1) .default 1 (by decide)
+    (by decide) (by decide) _ 2 3 1
+example : fromBatch mQ meanQ splitQ .kd 1 [0, 3] = fromBatchWithLeafSize mQ meanQ splitQ .kd 16 1 [0, 3] :=
+  (from_batch_default mQ meanQ splitQ .kd 1 [0, 3]).1
+-- the point 1 (row 2, reduced distance 2 from the query 2) is nearer than the returned point 0
+-- (row 0, reduced distance 4), so every 4-nearest answer contains it
+example (out : List (Pt ℚ)) (h : KNearest mQ 2 (enumerate [0, 3, 1, 3, 7]) out 4)
+    (hy : ((0 : ℚ), 0) ∈ out) : ((1 : ℚ), 2) ∈ out :=
+  kNearest_strict_determined mQ 2 _ out 4 h (1, 2) (by simp [enumerate]) (0, 0) hy
+    (by simp [mQ]; norm_num)
+example (out : List (Pt ℚ)) (h : out.Perm (linearRange mQ 2 1 (enumerate [0, 3, 1, 3, 7]))) :
+    (∀ p ∈ out, ([0, 3, 1, 3, 7] : List ℚ)[p.2]? = some p.1) ∧ (out.map (·.2)).Nodup :=
+  range_positions mQ 2 1 _ out h
+-- the provided metrics: the ball-tree theorems apply to L1 / Linf over ℚ and to L2 over ℝ on
+-- 2-dimensional points (a 3-4-5 triangle: (3,4) lies exactly on the radius 5 around the origin)
+def v2 (x y : ℚ) : {l : List ℚ // l.length = 2} := ⟨[x, y], rfl⟩
+def r2 (x y : ℝ) : {l : List ℝ // l.length = 2} := ⟨[x, y], rfl⟩
+
+example : ∃ out, ballKnnQ (onDim 2 mL1) (ballIndex (onDim 2 mL1) (fun _ => v2 0 0) splitFirst 1 2
+      [v2 3 4, v2 1 1, v2 6 8, v2 1 1]) 2 (v2 0 0) 3 = .ok out ∧
+    KNearest (onDim 2 mL1) (v2 0 0) (enumerate [v2 3 4, v2 1 1, v2 6 8, v2 1 1]) out 3 :=
+  search_knn_correct (mL1_lawful 2) _ splitFirst splitFirst_perm 1 2 _ _ 3
+example : ∃ out, ballRangeQ (onDim 2 mLinf) (ballIndex (onDim 2 mLinf) (fun _ => v2 0 0) splitFirst 1 2
+      [v2 3 4, v2 1 1, v2 6 8, v2 1 1]) 2 (v2 0 0) 4 = .ok out ∧
+    out.Perm (linearRange (onDim 2 mLinf) (v2 0 0) 4 (enumerate [v2 3 4, v2 1 1, v2 6 8, v2 1 1])) :=
+  search_range_correct (mLinf_lawful 2) _ splitFirst splitFirst_perm 1 2 _ _ 4
+example : ∃ out, ballRangeQ (onDim 2 mL2) (ballIndex (onDim 2 mL2) (fun _ => r2 0 0) splitFirst 1 2
+      [r2 3 4, r2 1 1, r2 6 8]) 2 (r2 0 0) 5 = .ok out ∧
+    out.Perm (linearRange (onDim 2 mL2) (r2 0 0) 5 (enumerate [r2 3 4, r2 1 1, r2 6 8])) :=
+  search_range_correct (mL2_lawful 2) _ splitFirst splitFirst_perm 1 2 _ _ 5
+
+end examples2
 
 end LinfaSpec.Props.C07
